@@ -8,36 +8,45 @@ SPEC = dict(
     level="exploration",
     level_text=("seeded search over populations of byzantine AutoNAT v2 clients (real nodes speaking the dial-request protocol "
                 "raw) x arrival patterns over virtual minutes x request shapes x dial-data scripts x schedules against the real "
-                "autonatv2 server (New/Start, WithServerRateLimit) with a real dialer host on the simulated network; every "
-                "dial-back is a logged simnet dial; oracles over stamped histories. Sampling, not proof."),
+                "autonatv2 server (New/Start, WithServerRateLimit) with its dialer host built as libp2p.New builds it (dial-only "
+                "swarm under a blank host) on the simulated network; every dial-back is a logged simnet dial; oracles over "
+                "stamped histories. Sampling, not proof."),
     level_note=("trusted: testing/synctest, the overlay rewrite, simnet's TCP model, the harness's by-construction "
                 "classification of request entries (public+TCP / surely ineligible / undetermined); math/rand's global source "
                 "is pinned per run (randseednop=0); not simulated: QUIC/WebTransport/WebRTC dial-backs, DNS addresses, real NATs "
-                "(the observed IP of a client is always its node's IP)"),
+                "(the observed IP of a client is always its node's IP); a dialer host that runs identify is outside the "
+                "registered check (development knob C16_BASIC_DIALER, see the observations at the top of sim_test.go)"),
     technique="deterministic simulation: byzantine protocol clients against the real server on simnet, dial log + stamped byte counts",
     design_ref="DESIGN.md section 6 (C16)",
     quick_s=60, thorough_s=600,
-    rule=("one run = one tape: limits (global 2-9, per-peer 1-5, dial-data 1-4 per minute, 1-3 concurrent per peer), 2-5 clients "
-          "(optionally two on one IP), link chunking whole|fragmented, optional latencies, 1-14 requests at drawn gaps (0..75 s) "
-          "each with a drawn client, address list (14 entry kinds, length 0|1|2-4|50-52|120), request shape (normal | wrong first "
-          "message | half a request then pause | oversized) and dial-data script (correct | short by 1..n-150 | tiny messages | "
-          "varied sizes | non-protobuf frames | early close/reset | message > 8192 B; pauses before/in the middle); "
-          "non-trivial = the dialer host dialled at least once and at least two requests were answered; distinct = distinct "
-          "(limits, per-request outcome incl. requested/written dial-data bytes and statuses, dial log)"),
+    rule=("one run = one tape: stratum (general mix | concurrency: generous per-minute limits, bursts of one peer's held "
+          "dial-data requests | one tight per-minute limit: global, per-peer or dial-data), limits (global 1-12, per-peer 1-8, "
+          "dial-data 1-8 per minute, 1-3 concurrent per peer), 2-5 clients (optionally two on one IP, optionally announcing the "
+          "victim's address through identify), link chunking whole|fragmented, optional latencies, 1-14 requests at drawn gaps "
+          "(0..75 s) each with a drawn client, address list (14 entry kinds, length 0|1|2-4|50-52|120), request shape (normal | "
+          "wrong first message | half a request then pause then rest or reset | oversized), dial-data script (correct | short "
+          "by 1..n-150 | tiny messages | varied sizes | non-protobuf frames | early close/reset | message > 8192 B; pauses "
+          "before/in the middle) and dial-back handler (answer | delayed | reset | close); faults_fired counts the byzantine "
+          "behaviours that were actually executed; non-trivial = the dialer host dialled at least once and at least two "
+          "requests were answered; distinct = distinct (limits, per-request outcome incl. requested/written dial-data bytes "
+          "and statuses, dial log, schedule hash)"),
     probes=["dial-same-ip", "dial-foreign-ip-after-dial-data", "victim-dialled-after-dial-data", "dial-back-on-second-ip",
             "refused-no-eligible-address", "request-rejected", "rejected-with-a-limit-possibly-reached",
             "window-full-global", "window-full-per-peer", "window-full-dial-data",
             "concurrent-requests-of-one-peer-in-service", "concurrency-at-limit",
             "dial-data-requested", "dial-data-incomplete-no-dial", "dial-data-complete-then-answer",
-            "server-reset-in-dial-data-phase", "honest-flow-ok", "long-address-list", "oversized-request-reset",
-            "client-deadline"],
+            "server-reset-in-dial-data-phase", "server-timed-out-waiting-for-dial-data", "honest-flow-ok",
+            "long-address-list", "oversized-request-reset", "dial-back-over-connection-of-sibling-request"],
     real=["ALL of the following run as tasks of the seeded scheduler (instrumented)",
           "p2p/protocol/autonatv2 server through New/Start with WithServerRateLimit (rate limiter, amplification policy, "
           "getDialData/readDialData, dialBack) and its client half on S",
-          "dialer host D and service host S: basic host, identify, swarm, tcp dial path, upgrader, noise, multistream, yamux, pstoremem, eventbus",
-          "2-5 client nodes and the victim node (same stack) - the clients' protocol logic is the harness's byzantine script"],
+          "dialer host D: real swarm (dial-only, NoDelayDialRanker, read-only black-hole detector), tcp dial path, upgrader, "
+          "noise, multistream, yamux, pstoremem under p2p/host/blank as in config.makeAutoNATV2Host",
+          "service host S, 2-5 client nodes and the victim node: basic host, identify, swarm, tcp, upgrader, noise, multistream, "
+          "yamux, pstoremem, eventbus - the clients' protocol logic is the harness's byzantine script"],
     stubs=["wire: simnet TCP model (dial log = ground truth of what was dialled and when)",
            "byzantine clients: hand-written dial-request speakers and dial-back handlers on real nodes"],
     assume=["virtual clock of testing/synctest", "math/rand global source seeded per run (GODEBUG randseednop=0)",
-            "a client's connection to S always comes from the client's node IP (no NAT in the simulation)"],
+            "a client's connection to S always comes from the client's node IP (no NAT in the simulation)",
+            "the dialer host does not run identify (the configuration libp2p.New ships)"],
 )
